@@ -84,6 +84,14 @@ class ChainDomain(ListDomain):
             raise AnalysisBroken("shape: line %d: arithmetic on the table size" % ln)
         return ("hash",)
 
+    def narrow(self, I, v, width, ln):
+        """a key (or value) converted to a narrower integer: good for hashing, no longer an identity"""
+        if v == ("kparam",):
+            return ("hash",)
+        if v[0] == "key":
+            return ("keybits", v[1], width)
+        return v
+
     def index(self, I, base, idx, ln):
         if base != ("arr",):
             raise AnalysisBroken("shape: line %d: subscript of %r" % (ln, base))
@@ -103,6 +111,11 @@ class ChainDomain(ListDomain):
         self.slot = v
 
     def equal(self, I, a, b, ln):
+        if a[0] == "keybits" or b[0] == "keybits" or (a[0] == "hash" and b[0] in ("key", "hash", "keybits")) or (b[0] == "hash" and a[0] in ("key", "keybits")):
+            kb = a if a[0] == "keybits" else b
+            raise Violation("line %d: a stored key is compared with the searched key after a conversion to %s bits: two different keys that agree in those bits "
+                            "(they always share a bucket) are taken for one key - the second insert overwrites the first, lookups return the other key's value" % (
+                                ln, kb[2] if kb[0] == "keybits" else "fewer"), ln)
         if a == b:
             return True
         pair = (a, b) if a[0] == "key" else (b, a)
